@@ -111,8 +111,8 @@ func forwardTarget(w *ssa.Function) *ssa.Function {
 			return v
 		}
 	}
-	if len(ret.Results) == 1 {
-		if strip(ret.Results[0]) != ssa.Value(call) {
+	if retCount(ret) == 1 {
+		if strip(retValue(ret, 0)) != ssa.Value(call) {
 			return nil
 		}
 	} else {
@@ -131,6 +131,9 @@ func FuncKey(f *ssa.Function) string {
 		return "<nil>"
 	}
 	if k, ok := forwardName[f]; ok {
+		return k
+	}
+	if k, ok := funcAlias[f]; ok {
 		return k
 	}
 	if f.Parent() != nil {
@@ -158,6 +161,9 @@ func FuncKey(f *ssa.Function) string {
 			name = n.Obj().Name()
 			if n.Obj().Pkg() != nil {
 				pkg = shortPkg(n.Obj().Pkg().Path())
+			}
+			if a, ok := typeNameAlias[pkg+"."+name]; ok {
+				name = a[strings.Index(a, ".")+1:]
 			}
 		}
 		// an unexported method whose name occurs once in its package goes by `pkg.name`, like the function it
@@ -223,6 +229,14 @@ func Load(dir, goos, goarch string) (*Program, error) {
 			P.PkgByName[shortPkg(p.Pkg.Path())] = p
 		}
 	}
+	{
+		var tp []*types.Package
+		for _, p := range pkgs {
+			tp = append(tp, p.Types)
+		}
+		computeTypeAliases(tp)
+	}
+	computeGlobalAliases(prog)
 	all := ssautil.AllFunctions(prog)
 	// names of unexported functions/methods that occur once in their (module) package
 	{
@@ -251,6 +265,7 @@ func Load(dir, goos, goarch string) (*Program, error) {
 			}
 		}
 	}
+	computeFuncAliases(all)
 	for f := range all {
 		var pk *types.Package
 		if f.Pkg != nil {
@@ -314,6 +329,7 @@ func Load(dir, goos, goarch string) (*Program, error) {
 	}
 	computeFieldAliases(P)
 	computeParamPerms(P)
+	computeResPerms(P)
 	return P, nil
 }
 
